@@ -18,27 +18,36 @@ def one_case(V, E, form=None):
     k = FORM[0] % 6 if form is None else form
     del FORM[1:]
     FORM.append(k)
-    if k == 3:
-        G = DiGraph(V=iter(list(V)), E=iter(list(E)))
-    elif k == 4:
-        G = DiGraph(V=tuple(V), E=zip([a for a, _ in E], [b for _, b in E]))
-    elif k == 5:
-        G = DiGraph(V=list(V), E=(tuple(e) for e in list(E)))
-    elif k == 1:
-        G = DiGraph()                                   # incremental construction: nodes first, then the edges
-        for v in V:
-            G.add_node(v)
-        for a, b in E:
-            G.add_edge(a, b)
-    elif k == 2:
-        G = DiGraph()                                   # incremental construction: edges first (creating their ends), then the rest
-        for a, b in E:
-            G.add_edge(a, b)
-        for v in V:
-            if v not in G.nodes():
+    def construct():
+        if k == 3:
+            G = DiGraph(V=iter(list(V)), E=iter(list(E)))
+        elif k == 4:
+            G = DiGraph(V=tuple(V), E=zip([a for a, _ in E], [b for _, b in E]))
+        elif k == 5:
+            G = DiGraph(V=list(V), E=(tuple(e) for e in list(E)))
+        elif k == 1:
+            G = DiGraph()                                   # incremental construction: nodes first, then the edges
+            for v in V:
                 G.add_node(v)
-    else:
-        G = DiGraph(V=V, E=E)
+            for a, b in E:
+                G.add_edge(a, b)
+        elif k == 2:
+            G = DiGraph()                                   # incremental construction: edges first (creating their ends), then the rest
+            seen = set()
+            for a, b in E:
+                G.nodes(), G.sources()                      # the caller looks at the graph between two edits
+                G.add_edge(a, b)
+                seen.update((a, b))
+            for v in V:
+                if v not in seen:
+                    G.add_node(v)
+        else:
+            G = DiGraph(V=V, E=E)
+        return G
+    built = call(construct)
+    if built[0] != 'ok':
+        return DiGraph(), ('err', 'other:building (V, E) through %s raised %s' % ({1: 'add_node then add_edge calls', 2: 'add_edge calls then add_node', 3: 'iterators', 4: 'tuple / zip', 5: 'list / generator'}.get(k, 'lists'), built[1])), True
+    G = built[1]
     if set(G._next) != set(V) | {x for e in E for x in e} or {(a, b) for a, ds in G._next.items() for b in ds} != {tuple(e) for e in E}:
         return G, ('err', 'other:the DiGraph built from (V, E) given as %s is not the graph (V, E)' % {1: 'add_node then add_edge calls', 2: 'add_edge calls then add_node', 3: 'iterators', 4: 'tuple / zip', 5: 'list / generator'}.get(k, 'lists')), True
     before = repr(sorted((repr(k), sorted(map(repr, v))) for k, v in G._next.items()))
